@@ -1,4 +1,5 @@
 import J5V.Codec.Decode
+import J5V.Codec.Query
 /-!
 # Documents with a fault (C03, second sentence), declaratively
 
@@ -216,5 +217,53 @@ def SpellsRoot (c : Cfg) (root : String) (m : Fields) (t : PTree) : Prop :=
   | some (.object props), .obj ms => SpellsM c props m [] ms
   | some (.oneof ops), .obj ms => SpellsO c ops m ms
   | _, _ => False
+
+/-! # The document equivalent to a scalar query parameter (C03: "scalar values supplied as URL
+query parameters produce the same message as the canonical spelling")
+
+`a.b.c=v` is the document `{"a":{"b":{"c":V}}}` where `V` is `true` / `false` for a boolean
+field given as `true` / `false` (`queryGoValue`) and the string `"v"` otherwise; the segments are
+the JSON names as written. -/
+
+/-- the JSON value of a scalar query parameter -/
+def queryLeafTree (k : ScalarKind) (s : Bytes) : PTree :=
+  match queryGoValue k s with
+  | .bool b => .bool b
+  | _ => .str s []
+
+/-- the value tree for the path `segs` below the property set `props`; `none` when the path does
+not lead through object / oneof containers to a scalar or enum property -/
+def queryValueTree (c : Cfg) : List Bytes → List PropDef → Bytes → Option (Bytes × PTree)
+  | [], _, _ => none
+  | [seg], props, s =>
+    match findProp props seg with
+    | some p =>
+      match p.field with
+      | .scalar k => some (seg, queryLeafTree k s)
+      | .enum _ => some (seg, .str s [])
+      | _ => none
+    | none => none
+  | seg :: seg2 :: rest, props, s =>
+    match findProp props seg with
+    | some p =>
+      match p.field with
+      | .object ref =>
+        match c.env.find ref with
+        | some (.object sub) =>
+          (queryValueTree c (seg2 :: rest) sub s).map fun kv =>
+            (seg, .obj (.cons kv.1 [] kv.2 (.nil .closed)))
+        | _ => none
+      | .oneof ref =>
+        match c.env.find ref with
+        | some (.oneof ops) =>
+          (queryValueTree c (seg2 :: rest) ops s).map fun kv =>
+            (seg, .obj (.cons kv.1 [] kv.2 (.nil .closed)))
+        | _ => none
+      | _ => none
+    | none => none
+
+/-- the document equivalent to the query `segs.join(".") = s` -/
+def queryDoc (c : Cfg) (segs : List Bytes) (props : List PropDef) (s : Bytes) : Option PTree :=
+  (queryValueTree c segs props s).map fun kv => .obj (.cons kv.1 [] kv.2 (.nil .closed))
 
 end J5V.Codec
